@@ -123,10 +123,19 @@ func (ts *Timers) Add(ctx context.Context, id string, message interface{}, in ti
 			// message may want to use it), and never remove an
 			// entry that was made under that id since.
 			ts.Lock()
-			if cur, have := ts.timers[id]; have && cur == te {
+			cur, have := ts.timers[id]
+			mine := have && cur == te
+			if mine {
 				delete(ts.timers, id)
 			}
 			ts.Unlock()
+
+			if !mine {
+				// Rem() got in between the expiry and
+				// here: a timer that was cancelled
+				// (successfully) never fires.
+				return
+			}
 
 			if err := ts.emit(ctx, te.Message); err != nil {
 				ts.err(fmt.Errorf("Timers emit error %v id=%s", err, id))
